@@ -14,6 +14,7 @@ import (
 	"pgregory.net/rapid"
 
 	"berty.tech/go-ipfs-log/entry"
+	idp "berty.tech/go-ipfs-log/identityprovider"
 	"berty.tech/go-ipfs-log/iface"
 
 	"verifharness/ev"
@@ -51,6 +52,39 @@ type c08Prog struct {
 	ClockID []byte `json:"clockid"`
 	Time    int    `json:"time"`
 	Heads   []int  `json:"heads"` // manifest heads (indices into cidPool, order matters)
+	// Ident, when set, is the identity record the entry carries: any id text (other identity providers use mixed-case
+	// addresses, names, ...), provider type and signature bytes. The key - and with it the entry's signature - stays
+	// the writer's, so the entry verifies all the same.
+	Ident *c08Ident `json:"ident,omitempty"`
+}
+
+type c08Ident struct {
+	ID    string `json:"id"`
+	Type  string `json:"type"`
+	SigID []byte `json:"sigId"`
+	SigPK []byte `json:"sigPk"`
+}
+
+// aliasProvider signs with the writer's real identity whatever identity record it is handed.
+type aliasProvider struct {
+	idp.Interface
+	real *idp.Identity
+}
+
+func (a aliasProvider) Sign(ctx context.Context, _ *idp.Identity, data []byte) ([]byte, error) {
+	return a.Interface.Sign(ctx, a.real, data)
+}
+
+func identityOf(p c08Prog) *idp.Identity {
+	id := world.Identity(p.Writer)
+	if p.Ident == nil {
+		return id
+	}
+	return &idp.Identity{
+		ID: p.Ident.ID, Type: p.Ident.Type, PublicKey: append([]byte(nil), id.PublicKey...),
+		Signatures: &idp.IdentitySignature{ID: append([]byte(nil), p.Ident.SigID...), PublicKey: append([]byte(nil), p.Ident.SigPK...)},
+		Provider:   aliasProvider{Interface: id.Provider, real: id},
+	}
 }
 
 func genC08(t *rapid.T) c08Prog {
@@ -74,6 +108,19 @@ func genC08(t *rapid.T) c08Prog {
 		p.ClockID = rapid.SliceOfN(rapid.Byte(), 1, 70).Draw(t, "clockid")
 	}
 	p.Heads = rapid.SliceOfN(rapid.IntRange(0, len(cidPool)-1), 1, 8).Draw(t, "heads")
+	if rapid.IntRange(0, 2).Draw(t, "customIdentity") == 0 {
+		p.Ident = &c08Ident{
+			ID: rapid.OneOf(
+				rapid.StringMatching(`[0-9a-fA-F]{2,66}`),
+				rapid.StringMatching(`0x[0-9a-fA-F]{40}`),
+				rapid.StringMatching(`[A-Za-z0-9 _.:@/\-]{1,24}`),
+				rapid.StringN(1, 16, -1),
+			).Draw(t, "identId"),
+			Type:  rapid.OneOf(rapid.SampledFrom([]string{"orbitdb", "ethereum", "Wallet-X", "DID"}), rapid.StringN(1, 12, -1)).Draw(t, "identType"),
+			SigID: rapid.SliceOfN(rapid.Byte(), 0, 72).Draw(t, "identSigId"),
+			SigPK: rapid.SliceOfN(rapid.Byte(), 0, 72).Draw(t, "identSigPk"),
+		}
+	}
 	// a caller may name a predecessor or a reference twice (the library drops the repetition): the entry is still
 	// one logical entry with one identifier
 	if rapid.IntRange(0, 3).Draw(t, "repeatLinks") == 0 {
@@ -122,7 +169,7 @@ func create(tb ev.TB, st *fakeipfs.Store, p c08Prog, io iface.IO) iface.IPFSLogE
 }
 
 func createWith(tb ev.TB, st *fakeipfs.Store, p c08Prog, io iface.IO, opts *iface.CreateEntryOptions) iface.IPFSLogEntry {
-	id := world.Identity(p.Writer)
+	id := identityOf(p)
 	cl := append([]byte(nil), p.ClockID...) // fresh slices on every build
 	if len(cl) == 0 {
 		cl = append([]byte(nil), id.PublicKey...)
@@ -373,7 +420,7 @@ func runC08(tb ev.TB, p c08Prog) ev.Result {
 
 func TestC08(t *testing.T) {
 	c := ev.Get("C08")
-	c.Rule = "rapid generates entries (binary payloads incl. invalid UTF-8 and 300-byte runs, 0-7 predecessors and 0-7 references from a CID pool incl. CIDv0/raw links, default or custom clock ids up to 70 bytes, times incl. every CBOR integer-width boundary up to 2^62, 6 identities, default or link-key codec) and manifests (1-8 heads in generated order). Oracles: stored bytes == the harness's own canonical DAG-CBOR reference encoder and CID == sha2-256 CID of those bytes; read-back equals the written entry field by field; default codec: re-encoding the decoded entry gives the same CID; the same logical value built again from fresh structs in another store gives the same bytes; the run's (case, CID) digest is compared between two processes with the same seed by the driver. Non-trivial = payload has a non-ASCII byte, or >= 2 links, or time > 2^32; distinct = distinct program. Pinned interop vectors are checked by TestC08Vectors in the same run."
+	c.Rule = "rapid generates entries (binary payloads incl. invalid UTF-8 and 300-byte runs, 0-7 predecessors and 0-7 references from a CID pool incl. CIDv0/raw links, default or custom clock ids up to 70 bytes, times incl. every CBOR integer-width boundary up to 2^62, 6 writer identities and - in a third of the cases - a generated identity record: any id text such as mixed-case hex or addresses, names, unicode; any provider type; any signature bytes; the key stays the writer's, default or link-key codec) and manifests (1-8 heads in generated order). Oracles: stored bytes == the harness's own canonical DAG-CBOR reference encoder and CID == sha2-256 CID of those bytes; read-back equals the written entry field by field; default codec: re-encoding the decoded entry gives the same CID; the same logical value built again from fresh structs in another store gives the same bytes; the run's (case, CID) digest is compared between two processes with the same seed by the driver. Non-trivial = payload has a non-ASCII byte, or >= 2 links, or time > 2^32; distinct = distinct program. Pinned interop vectors are checked by TestC08Vectors in the same run."
 	c.Assumptions = []string{"nil and empty link lists are the same logical value", "the legacy codec is only claimed for decoding v0 blocks (TestC08Vectors)", "'any process' is sampled as two processes with the same seed"}
 	ev.Check(t, "C08", genC08, runC08)
 }
